@@ -197,6 +197,22 @@ def run(rep, tier, seed):
         return xmlgen.simple_model(decl=gd, params="const int[0,3] k0, int &r1", edges=[("id0", "id0", [("assignment", "r1 = 1")])],
                                    system="Q(const int[0,3] a, int &x) = P(a, x);\nQ2(const int[0,3] b) = Q(b, %s);\nsystem Q2;" % lv)
     pairs.append(("const-scalar", "partial-instance-chain-ref-arg", mk3("c"), mk3("v")))
+    # dynamic templates: a parameter declared / defined const and written in the body; constants handed to the
+    # reference parameter of a dynamic template by spawn
+    def dyn(decl_par, def_par, body_upd, spawn_arg=None, extra=""):
+        d = TYPES + "const int c = 1; int v = 1; const int ca[2] = { 1, 2 }; int va[2]; const S cs = { 1, 2 }; S vs;" + extra + " dynamic D(%s);" % decl_par
+        dt = ('<template><name>D</name><parameter>%s</parameter><declaration/><location id="d0"/><init ref="d0"/><transition><source ref="d0"/>'
+              '<target ref="d0"/><label kind="assignment">%s</label></transition></template>' % (xmlgen.esc(def_par), xmlgen.esc(body_upd)))
+        x = xmlgen.simple_model(decl=d, edges=[("id0", "id0", [("assignment", "spawn D(%s)" % spawn_arg)])] if spawn_arg else None, extra_templates=dt)
+        a = x.index("<template>")
+        b = x.index("</template>") + len("</template>")
+        return x[:a] + dt + x[a:b] + x[b:].replace(dt, "", 1)       # the defining template first
+    for w in ("p = 2", "p++", "--p", "p += 1", "p <<= 1", "h = 1, p = 3", "setref(p)"):
+        pairs.append(("dynamic-template-const-parameter", w, dyn("const int p", "const int p", w), dyn("int p", "int p", w)))
+        pairs.append(("dynamic-template-parameter-const-in-definition-only", w, dyn("int p", "const int p", w), dyn("int p", "int p", w)))
+        pairs.append(("dynamic-template-parameter-const-in-declaration-only", w, dyn("const int p", "int p", w), dyn("int p", "int p", w)))
+    for carg, marg in (("c", "v"), ("ca[1]", "va[1]"), ("cs.f", "vs.f"), ("ca[h]", "va[h]")):
+        pairs.append(("spawn-reference-argument", carg, dyn("int &r", "int &r", "r = 1", carg), dyn("int &r", "int &r", "r = 1", marg)))
     for q in ("forall", "exists", "sum"):
         body = "(k = 1) > 0" if q != "sum" else "(k = 1)"
         ctl = "(k + 1) > 0" if q != "sum" else "(k + 1)"
